@@ -117,7 +117,9 @@ PROGFUZZ = {
                      "mean is only used on small integers (sums exact in f64) and cast to i32"],
     ),
     "C02": dict(
-        quick=dict(programs=120, cases=4), thorough=dict(programs=960, cases=8),
+        # (thorough: 600 programs with up to four members each; more do not link into one runner binary: the code of a
+        # debug build then exceeds what PC-relative relocations can address)
+        quick=dict(programs=120, cases=4), thorough=dict(programs=600, cases=12),
         # the shard count of the concurrent indices is fixed per process by the first use: 64 shards and 4 shards
         proc_configs=[dict(VERIF_FIRST_POOL=16), dict(VERIF_FIRST_POOL=1)],
         level="exploration",
@@ -133,7 +135,7 @@ PROGFUZZ = {
                      "rustc compiles the generated crate faithfully", "the reference evaluator is correct"],
     ),
     "C05": dict(
-        quick=dict(programs=96, cases=8), thorough=dict(programs=960, cases=20),
+        quick=dict(programs=96, cases=8), thorough=dict(programs=720, cases=26),
         proc_configs=[dict(VERIF_FIRST_POOL=16), dict(VERIF_FIRST_POOL=1)],
         level="exploration",
         rule=("Programs built to maximise re-derivation: duplicated rules, two head clauses into the same relation, derived relations "
